@@ -19,6 +19,7 @@ def step (st : DState) (line : String) : DState × String :=
   | "name" :: rest => (st, Drv.Names.handle rest)
   | "toc" :: rest => (st, Drv.Toc.handle rest)
   | "xp" :: rest => (st, Drv.XPathLit.handle rest)
+  | "tv" :: rest => (st, Drv.PyT.handle rest)
   | "row" :: "trav" :: rest => (st, Drv.Row.handleTrav st.row rest)
   | "row" :: rest => let (r, o) := Drv.Row.handle st.row rest; ({ st with row := r }, o)
   | "tbl" :: "x" :: rest =>
